@@ -47,13 +47,14 @@ Theorem coverage_complete :
 Proof. vm_compute. reflexivity. Qed.
 
 (* and nothing is listed twice or listed without being an entry point *)
+Fixpoint nodupb (l : list string) : bool :=
+  match l with
+  | [] => true
+  | x :: r => negb (existsb (String.eqb x) r) && nodupb r
+  end.
+
 Theorem coverage_exact :
   forallb (fun f => existsb (String.eqb f) (risk_roots ++ risk_dyn_targets))
           (unconditional ++ conditional ++ map fst not_covered) = true /\
-  NoDup (unconditional ++ conditional ++ map fst not_covered).
-Proof.
-  split; [vm_compute; reflexivity|].
-  apply (NoDup_count_occ' string_dec). intros x Hx.
-  revert x Hx. apply Forall_forall. vm_compute.
-  repeat (constructor; [reflexivity|]). constructor.
-Qed.
+  nodupb (unconditional ++ conditional ++ map fst not_covered) = true.
+Proof. split; vm_compute; reflexivity. Qed.
